@@ -128,13 +128,27 @@ func (this *Conn) AddNode(id uint64, address string) {
 	this.addressesMu.Lock()
 	defer this.addressesMu.Unlock()
 
-	if _, exists := this.addresses[id]; !exists {
+	existingAddress, exists := this.addresses[id]
+	if !exists {
 		this.addresses[id] = address
 		this.sendNodesChangeNotification(&nodesChange {
 			Type: NodesChangeAddNode,
 			NodeId: id,
 		})
 		this.log.Infof("Conn: Added node: %16x", id)
+	} else if address != "" && existingAddress != address {
+		// The membership entry that bootstraps the cluster carries no address.
+		// Do not let it (or a stale address) shadow the address the node announced.
+		this.addresses[id] = address
+
+		this.connsMu.Lock()
+		defer this.connsMu.Unlock()
+		if conn, exists := this.conns[id]; exists {
+			if err := conn.Close(); err != nil {
+				log.Error(err)
+			}
+			delete(this.conns, id)
+		}
 	}
 }
 
